@@ -349,3 +349,8 @@ for pid, items in (("C04", [("WholeEndToEndT.v", "c_set_tweak128_fold"), ("Whole
                               ("WholeEndToEndT.v", "c_tweak_history_then_decrypt128_spec"), ("WholeEndToEndT.v", "c_tweak_history_then_decrypt64_spec")]),):
     if pid in PLAN:
         add_imports(pid, WHI + ["ModelCipher", "ProofsSkinny", "WholeProc", "WholeCtr", "WholeCtrModel", "WholeKeyTweak", "WholeCompose", "WholeEndToEndT"]); PLAN[pid] += items
+
+# C10 padding on the code-level specification (WholeEndToEndK.v)
+for pid, items in (("C10", [("WholeEndToEndK.v", "c_set_key128_padding"), ("WholeEndToEndK.v", "c_set_key64_padding")]),):
+    if pid in PLAN:
+        add_imports(pid, WHI + ["ModelCipher", "ProofsSkinny", "WholeEndToEndK"]); PLAN[pid] += items
